@@ -72,6 +72,11 @@ impl<T> SideLock<T> {
     pub fn unwrap(self) -> SideLock<T> { unimplemented!() }
     #[verifier::external_body]
     pub fn take(self) -> Option<T> { unimplemented!() }
+    // a peek at the channel that is not spelled as R-SIDECHAN's read: its result is unconstrained
+    #[verifier::external_body]
+    pub fn is_some(&self) -> bool { unimplemented!() }
+    #[verifier::external_body]
+    pub fn is_none(&self) -> bool { unimplemented!() }
 }
 
 /// R-SIDECHAN: the read of the panic side channel, `self.panic_message.lock().unwrap().take()`. The channel is written by
